@@ -63,6 +63,11 @@ def task(args):
             v = s["violation"]
             if v:
                 rec["fail"] += 1
+                dump = os.environ.get("SURVEY_DUMP_DIR")
+                if dump and rec["fail"] <= 2:
+                    os.makedirs(dump, exist_ok=True)
+                    with open(os.path.join(dump, "C02-%s-%d.json" % (key.replace(":", "_"), rec["fail"])), "w") as fdump:
+                        json.dump({"property": "C02", "seed": 777, "world": key, "violation": v, "spec": spec}, fdump)
                 if len(rec["fails"]) < 3:
                     rec["fails"].append({"p": p, "noise": noise, "cls": v["cls"], "detail": v["detail"][:90], "seedspec": ss})
     return rec
@@ -71,6 +76,10 @@ if __name__ == "__main__":
     out = sys.argv[1]; P = int(sys.argv[2]) if len(sys.argv) > 2 else 4; S = int(sys.argv[3]) if len(sys.argv) > 3 else 30
     maxn = int(sys.argv[4]) if len(sys.argv) > 4 else 300
     cl = classes()
+    only = os.environ.get("SURVEY_ONLY")
+    if only:
+        want = set(only.split(","))
+        cl = [c for c in cl if "%s:%s:%s:L%d:%s" % (c[0], c[1], "".join(map(str, c[2])) if c[1] == "slab" else "-", c[3], "T" if c[4] else "F") in want]
     print(len(cl), "classes", flush=True)
     with ProcessPoolExecutor(16, mp_context=mp.get_context("fork")) as ex, open(out, "w") as f:
         for rec in ex.map(task, [(c, P, S, maxn) for c in cl], chunksize=1):
